@@ -40,8 +40,19 @@ package check
 // the tuples an edge evaluation sees are the stored ones (the iterator handed in) preceded by the request's
 // contextual tuples for this object, relation and user type whenever there are any; filtering only wraps that sequence
 //@ func (*Resolver).buildIterator(r, ctx, req, iter, conditions, relation, userType, visited) (res)
-//@   property C04
+//@   property C04 C25 C03
 //@   option nosafety
+// ... and whenever the edge may carry a condition (some listed condition is not the "none" marker) the sequence is
+// wrapped by the condition filter built from exactly these conditions and this request's context (C25 / C03: a
+// conditioned tuple is never followed unevaluated)
+//@   option monitor_props condFilter=C25,C03
+//@   ensures @conditionsEnforced (len(conditions) > 1 || (len(conditions) == 1 && conditions[0] != graph.NoCond)) ==> condBuilt && condInstalled
+//@   monitor condFilter
+//@     ghost condBuilt = false
+//@     ghost condF ref = nil
+//@     ghost condInstalled = false
+//@     after call check.BuildConditionTupleKeyFilter args _, m, cs, rc returning f : condBuilt = pre(cs == conditions && rc == req.GetContext()) ; condF = f
+//@     after call iterator.NewFilteredIterator* args it, fs : condInstalled = pre(len(fs) >= 1 && fs[len(fs) - 1] == condF)
 //@   ensures @storedIncluded converted && convArg == iter
 //@   ensures @contextualMerged ctxLooked && (ctxFound ==> concatenated && concatOK)
 //@   ensures @onlyWrapped res == cur || (filtered && filterArg == cur && res == filterRes)
@@ -103,9 +114,22 @@ package check
 //@     after call storage.RelationshipTupleReader.Read | storage.RelationshipTupleReader.ReadUsersetTuples | storage.RelationshipTupleReader.ReadStartingWithUser returning it, e : opened = e == nil ; cur = it ; released = false
 //@     after call defer:storage.Iterator.Stop | defer:storage.TupleKeyIterator.Stop | defer:storage.TupleIterator.Stop args recv : released = released || recv == cur
 
+// (C01 / C03, userset subjects: a direct assignment answers the edge only if it errs, allows, or the edge is neither
+// recursive nor part of a tuple cycle — on a recursive or cyclic edge a subject that is not directly assigned is looked
+// for among the usersets assigned to the object, i.e. the cycle is expanded)
 //@ func (*Resolver).specificTypeAndRelation(r, ctx, req, edge, visited) (res, err)
-//@   property C20
+//@   property C20 C01 C03
 //@   option nosafety
+//@   option monitor_props expansion=C01,C03 release=C20
+//@   ensures @cyclicEdgesAreExpanded directDone && dErr == nil && !dAllowed && cyclic ==> expanded
+//@   monitor expansion
+//@     ghost directDone = false
+//@     ghost dErr error = nil
+//@     ghost dAllowed = false
+//@     ghost cyclic = false
+//@     ghost expanded = false
+//@     after call (*check.Resolver).specificType args _, _, rq, e returning r0, e0 : directDone = rq == req && e == edge ; dErr = e0 ; dAllowed = r0.GetAllowed() ; cyclic = (edge.GetRecursiveRelation() != "" || edge.IsPartOfTupleCycle())
+//@     after call storage.RelationshipTupleReader.ReadUsersetTuples : expanded = true
 //@   ensures @iteratorReleased opened ==> released
 //@   monitor release
 //@     ghost cur iface = nil
@@ -152,3 +176,59 @@ package check
 //@   property C19
 //@   option nosafety
 //@   option safety slice,index
+
+// ------------------------------------------------------------------ C01 / C08 / C19: the cycle-detection state of the weighted-graph engine
+// ResolveEdge hands the visited set on exactly along edges that are part of a tuple cycle or recursive (elsewhere the
+// sub-problem starts without one), and dispatches every edge type to its resolver with this request and this edge /
+// this edge's target node
+//@ func (*Resolver).ResolveEdge(r, ctx, req, edge, visited) (res, err)
+//@   property C01 C08 C19
+//@   option nosafety
+//@   option defer_neutral
+//@   monitor dispatch
+//@     before call (*check.Resolver).specificType args _, _, rq, e : assert rq == req && e == edge
+//@     before call (*check.Resolver).specificTypeWildcard args _, _, rq, e : assert rq == req && e == edge
+//@     before call (*check.Resolver).specificTypeAndRelation args _, _, rq, e, v : assert rq == req && e == edge && v == ((edge.IsPartOfTupleCycle() || edge.GetRecursiveRelation() != "") ? visited : nil)
+//@     before call (*check.Resolver).ttu args _, _, rq, e, v : assert rq == req && e == edge && v == ((edge.IsPartOfTupleCycle() || edge.GetRecursiveRelation() != "") ? visited : nil)
+//@     before call (*check.Resolver).ResolveUnion args _, _, rq, n, v : assert rq == req && n == edge.GetTo() && v == ((edge.IsPartOfTupleCycle() || edge.GetRecursiveRelation() != "") ? visited : nil)
+//@     before call (*check.Resolver).ResolveRewrite args _, _, rq, n, v : assert rq == req && n == edge.GetTo() && v == ((edge.IsPartOfTupleCycle() || edge.GetRecursiveRelation() != "") ? visited : nil)
+
+// ResolveUnion starts a visited set — seeded with the object#relation under evaluation — exactly when none was handed in
+// and the node is a relation node that is recursive or part of a tuple cycle; a set handed in is passed on unchanged
+//@ func (*Resolver).ResolveUnion(r, ctx, req, node, visited) (res, err)
+//@   property C01 C08 C19
+//@   option nosafety
+//@   option defer_neutral
+//@   option stable node
+//@   option stable req
+//@   monitor cycleState
+//@     ghost seeded = false
+//@     ghost seedMap ref = nil
+//@     after call (*sync.Map).Store args m, k, v : seeded = pre(typeIs(k, "string") && as(k, "string") == tuple.ToObjectRelationString(req.GetTupleKey().GetObject(), req.GetTupleKey().GetRelation())) ; seedMap = m
+//@     before call (*check.Resolver).ResolveRecursive args _, _, rq, e, v : assert rq == req && (visited != nil ==> v == visited) && (visited == nil && old(node.GetNodeType() == graph.SpecificTypeAndRelation && (node.GetRecursiveRelation() == node.GetUniqueLabel() || node.IsPartOfTupleCycle())) ==> v != nil && seeded && v == seedMap) && (visited == nil && !(old(node.GetNodeType() == graph.SpecificTypeAndRelation && (node.GetRecursiveRelation() == node.GetUniqueLabel() || node.IsPartOfTupleCycle()))) ==> v == nil)
+//@     before call (*check.Resolver).ResolveUnionEdges args _, _, rq, es, v : assert rq == req && (visited != nil ==> v == visited) && (visited == nil && old(node.GetNodeType() == graph.SpecificTypeAndRelation && (node.GetRecursiveRelation() == node.GetUniqueLabel() || node.IsPartOfTupleCycle())) ==> v != nil && seeded && v == seedMap) && (visited == nil && !(old(node.GetNodeType() == graph.SpecificTypeAndRelation && (node.GetRecursiveRelation() == node.GetUniqueLabel() || node.IsPartOfTupleCycle()))) ==> v == nil)
+
+// ResolveRewrite dispatches on the node: relation and union nodes keep the visited set, intersection and exclusion are
+// evaluated without one, and an exclusion is never evaluated for a typed-wildcard request
+//@ func (*Resolver).ResolveRewrite(r, ctx, req, node, visited) (res, err)
+//@   property C01 C08 C19
+//@   option nosafety
+//@   monitor dispatch
+//@     before call (*check.Resolver).ResolveUnion args _, _, rq, n, v : assert rq == req && n == node && v == visited
+//@     before call (*check.Resolver).ResolveIntersection args _, _, rq, n : assert rq == req && n == node
+//@     before call (*check.Resolver).ResolveExclusion args _, _, rq, n : assert rq == req && n == node && !req.IsTypedWildcard()
+
+// the recursive strategy's per-object reader: same rule — whenever the edge may carry a condition, the tuples it maps
+// pass through the condition filter built from the edge's conditions and this request's context
+//@ func (*Recursive).buildTupleMapperForID(s, ctx, req, edge, recursiveType, id, visited) (res, err)
+//@   property C25 C03
+//@   option nosafety
+//@   ensures @conditionsEnforced err == nil && res != nil ==> wrapped && (needs ==> condBuilt && condInstalled)
+//@   monitor condFilter
+//@     ghost condBuilt = false
+//@     ghost condF ref = nil
+//@     ghost condInstalled = false
+//@     ghost needs = false
+//@     ghost wrapped = false
+//@     after call check.BuildConditionTupleKeyFilter args _, m, cs, rc returning f : condBuilt = pre(cs == conditions && cs == edge.GetConditions() && rc == req.GetContext()) ; condF = f
+//@     after call iterator.NewFilteredIterator* args it, fs : wrapped = true ; needs = pre(conditions == edge.GetConditions() && (len(conditions) > 1 || (len(conditions) == 1 && conditions[0] != graph.NoCond))) ; condInstalled = pre(len(fs) >= 1 && fs[len(fs) - 1] == condF)
